@@ -93,7 +93,7 @@ Section Agree.
   Proof.
     intros G f ft Hft Hag. unfold PS.field_stmt, PS.field_stmt_gen. cbv zeta.
     destruct (PS.f_ty f) as [n| | |pkg name u ms|e|e|n e|k v|txt|ap an ar] eqn:Et; cbn [fty17] in Hft; try discriminate;
-      cbn [PS.switch_type PS.unalias].
+      cbn [PS.switch_type PS.unalias PS.field_type_lit].
     - inversion Hft. do 4 eexists. split; [reflexivity|]. split; reflexivity.
     - inversion Hft. do 4 eexists. split; [reflexivity|]. split; reflexivity.
     - inversion Hft. rewrite Herr. do 4 eexists. split; [reflexivity|]. split; [apply PD.field_stmt_fixed_error|reflexivity].
@@ -139,17 +139,16 @@ Section Agree.
   Proof.
     intros f b H. unfold PS.field_stmt, PS.field_stmt_gen. cbv zeta.
     destruct (PS.f_ty f) as [n| | |pkg name u ms|e|e|n e|k v|txt|ap an ar] eqn:Et; cbn [fty17] in H; try discriminate;
-      cbn [PS.switch_type PS.unalias].
+      cbn [PS.switch_type PS.unalias PS.field_type_lit].
     - do 2 eexists. split; reflexivity.
     - destruct (PS.type_lit L target c (PS.TSlice e)) as [o i]. do 2 eexists. split; [reflexivity|]. eauto.
     - do 2 eexists. split; reflexivity.
     - destruct (PS.type_lit L target c (PS.TMap k v)) as [o i]. do 2 eexists. split; [reflexivity|]. eauto.
-    - destruct (PS.unalias ar) as [n| | |pkg name u ms|e|e|n e|k v|txt|bp bn br];
-        try (do 2 eexists; split; [reflexivity|exact I]).
-      + destruct b; [do 2 eexists; split; [reflexivity|exact I]|]. rewrite Herr. do 2 eexists; split; [reflexivity|exact I].
-      + destruct b; [do 2 eexists; split; [reflexivity|exact I]|].
-        destruct (PS.scan_methods ms (false, false, true)) as [[hc hi] ptr].
-        destruct (bytes_eqb pkg target && negb (PS.is_uiface u)); do 2 eexists; (split; [reflexivity|exact I]).
+    - destruct (bytes_eqb ap target); destruct (PS.unalias ar) as [n| | |pkg name u ms|e|e|n e|k v|txt|bp bn br];
+        destruct b; try rewrite Herr;
+        try (destruct (PS.scan_methods ms (false, false, true)) as [[hc hi] ptr]);
+        try (destruct (bytes_eqb pkg target && negb (PS.is_uiface u)));
+        do 2 eexists; (split; [reflexivity|exact I]).
   Qed.
 
   (* ---- partialstruct's callbacks: the ONLY difference between the two uses of the helper ---- *)
@@ -212,7 +211,7 @@ Section Agree.
     apply PP.generate_type_gen_inv in Hg. destruct Hg as [_ [fs' [o [Hu' [_ [_ [_ [i3 Hs]]]]]]]].
     rewrite Hu in Hu'. inversion Hu'; subst fs'. clear Hu'.
     apply PP.gen_stmts_loop_spec in Hs. destruct Hs as [ss [Hss HF]]. cbn [app] in Hss. subst ss.
-    change (PP.retained (PS.ti_omit ti)) with (keep (PS.ti_omit ti)) in HF.
+    change (PP.retained (PS.copy_skip (PS.ti_omit ti))) with (keep (PS.ti_omit ti)) in HF.
     assert (Hag' : forall f, In f (filter (keep (PS.ti_omit ti)) fs) ->
                              agrees_field target G (PS.replace_map (PS.ti_replace ti) []) f).
     { intros f Hin. apply filter_In in Hin. destruct Hin. apply Hag; assumption. }
